@@ -571,7 +571,7 @@ func (g *blkGen) gen(size, depth int, allowLoop bool) *Blk {
 		b := &Blk{Kind: "par"}
 		g.noEnd++
 		for i := 0; i < n; i++ {
-			b.Kids = append(b.Kids, g.gen(size/n, depth-1, false)) // a loop inside a parallel branch re-enters the join: kept out (C03 covers joins)
+			b.Kids = append(b.Kids, g.gen(size/n, depth-1, allowLoop && g.full)) // C01: a loop may sit inside a parallel branch
 		}
 		g.noEnd--
 		return b
@@ -724,7 +724,7 @@ func waitEnds(in *Inst, seen []int, want []int) []int {
 // into the sorted observed pending list), writing variables as writesFor decides.
 func RunBlk(b *Blk, env0 [4]bool, choose func(n int) int, writesFor func(task, nth int) [4]int, maxSteps int, opts ...bpmn.Option) blkObs {
 	var o blkObs
-	defs, err := ParseDefs(BlkProg(b).XML(""))
+	defs, err := ParseDefsShared(BlkProg(b).XML("")) // every script of a program runs on the one parsed document
 	must(err)
 	vars := map[string]any{}
 	env := make([]bool, 4)
